@@ -26,6 +26,7 @@ import (
 	"io"
 	"math/rand"
 	"os"
+	"runtime"
 	"sort"
 	"time"
 
@@ -260,6 +261,9 @@ type run struct {
 	genW     map[int]int             // generation -> worker count
 	rng      *rand.Rand              // seeded per behaviour: when to let background flushes / compactions settle
 	turn     int                     // generations booted (selects the DKV tuning)
+	nrestarts  int         // restarts executed so far
+	restartsAt map[int]int // checkpoint id -> restarts executed when its snapshot write was handed to storage
+	salt     int                     // a number that belongs to the behaviour itself (its length), not to its place in the input: what is chosen per behaviour (DKV tuning, id policy of replacements, settling coins) is the same when the behaviour is replayed alone
 	lastPos  map[string]int          // survivors: operator label -> its position in the previous assembly
 	late     map[[3]int]*gate.Arrival // survivors: calls of earlier assemblies still parked at an operator gate, by (epoch, r, o)
 	givens   int                     // handler invocations (events) expected so far
@@ -374,6 +378,10 @@ func (r *run) awaitGivens(n int) error {
 }
 
 func (r *run) awaitPub(n int) error {
+	if r.restartsAt == nil {
+		r.restartsAt = map[int]int{}
+	}
+	r.restartsAt[n] = r.nrestarts
 	a, err := r.c.Sched().Await(func(g *gate.Arrival) bool { return g.Point == cluster.PStoreWrite && int(call(g).Ckpt) == n }, wait)
 	if err != nil {
 		return driftf("completed checkpoint %d was not handed to storage: %v", n, err)
@@ -387,7 +395,7 @@ func (r *run) boot(w int, restart bool) (uint64, error) {
 	if err := r.c.SetWorkers(w); err != nil {
 		return 0, err
 	}
-	if m := r.cf.tuneFor(r.bi + r.turn); m != 0 {
+	if m := r.cf.tuneFor(r.salt + r.turn); m != 0 {
 		r.res.Count("tunedGenerations", 1)
 	}
 	r.turn++
@@ -395,7 +403,7 @@ func (r *run) boot(w int, restart bool) (uint64, error) {
 	var restored uint64
 	var err error
 	if restart && r.cf.survive {
-		restored, err = r.c.RestartSurvivors(cluster.SurviveOptions{NewIDsFirst: r.bi%2 == 1})
+		restored, err = r.c.RestartSurvivors(cluster.SurviveOptions{NewIDsFirst: r.salt%2 == 1})
 	} else if restart {
 		restored, err = r.c.Restart()
 	} else {
@@ -409,6 +417,15 @@ func (r *run) boot(w int, restart bool) (uint64, error) {
 		if r.cf.survive {
 			asm = r.c.Assembly()
 			r.accountSurvivors(mark)
+			if restart {
+				// the database instances the redeployed survivors dropped are garbage now: let the collector run
+				// their table cleanups (dkv deletes a table file when the last Table object naming it is collected)
+				// at this point instead of at some later one
+				for i := 0; i < 2; i++ {
+					runtime.GC()
+					time.Sleep(200 * time.Microsecond)
+				}
+			}
 		}
 		countShapes(r.c, mark, r.res)
 	} else if why := restoreFailure(r.c, mark); why != "" && restart {
@@ -616,6 +633,9 @@ func (r *run) exec(st mbt.Step) error {
 			return driftf("Publish: write failed: %v", call(a).Err)
 		}
 		_ = from
+		if r.restartsAt[st.Int("n")] != r.nrestarts {
+			r.res.Count("publishedAfterRestart", 1) // the surviving job's write of a checkpoint of an earlier assembly lands now
+		}
 		if st.Bool("sup") {
 			// a write that lands after a newer one: the job removes the file again, nothing refers to it
 			r.res.Count("supersededWrites", 1)
@@ -674,6 +694,7 @@ func (r *run) exec(st mbt.Step) error {
 		r.givens = len(r.c.Givens(0))
 		r.havePrev = restored != 0
 		r.res.Count("restarts", 1)
+		r.nrestarts++
 		if int(restored) != st.Int("n") {
 			return driftf("Restart: job restored checkpoint %d, model %d", restored, st.Int("n"))
 		}
@@ -970,7 +991,7 @@ func replay(bi int, beh []mbt.Step, cf *conf, res *mbt.Result, seed int64) {
 			os.WriteFile(fmt.Sprintf("%s/beh-%03d.json", d, bi), b, 0o644)
 		}()
 	}
-	r := &run{cf: cf, c: c, bi: bi, res: res, lostOps: map[int]bool{}, genW: map[int]int{}, late: map[[3]int]*gate.Arrival{}, lastPos: map[string]int{}, rng: rand.New(rand.NewSource(seed*7919 + int64(bi)))}
+	r := &run{cf: cf, c: c, bi: bi, res: res, lostOps: map[int]bool{}, genW: map[int]int{}, late: map[[3]int]*gate.Arrival{}, lastPos: map[string]int{}, salt: len(beh), rng: rand.New(rand.NewSource(seed*7919 + int64(len(beh))))}
 	r.reset()
 	if _, err := r.boot(w0, false); err != nil {
 		res.Errors = append(res.Errors, fmt.Sprintf("b%d: boot: %v", bi, err))
